@@ -22,8 +22,10 @@ PROPERTY = 'C03'
 THEOREM_FILES = ['Props/C03.v']
 ALLOWED_AXIOMS = []
 LABEL = ('partial: user handler code is represented by the program alphabet {recv_message, send_initial_metadata, '
-         'send_message, send_trailing_metadata(status,msg), cancel, sleep} ending in return / raise GRPCError / '
-         'raise Exception / raise BaseException / wait, with an honour-or-swallow cancellation policy; theorems are '
+         'send_message, send_trailing_metadata(status,msg) -- each sending call also in a variant that fails part-way '
+         '(invalid metadata / refused message / raising listener) --, cancel, sleep, transport-paused} ending in return / '
+         'raise GRPCError / raise Exception (plain, the handler\'s own TimeoutError, StreamTerminatedError, ProtocolError) / '
+         'raise BaseException / wait, with an honour-or-swallow cancellation policy; theorems are '
          'over programs of every length; D4 (BaseException / cancelled by Server.close -> no terminal frame) is a '
          'recorded finding (exactly_one_terminal is proved as _partial + _refuted); D42 (GRPCError(OK) on a unary reply '
          'without a message) is repaired and proved at full strength')
@@ -33,8 +35,10 @@ TRUSTED = ['modelled, not verified: hyper-h2 stream life-cycle (open / half-clos
            'tools/facts_C03.py (fail-closed ast translator: abort table with guards, __aexit__ statuses, '
            'TimeoutError clause, precondition checks, header literals)',
            'Model.Metadata.decode_metadata / Model.Base64 (C13) for the malformed-metadata check']
-ASSUMPTIONS = ['the transport is writable and the flow-control windows are open, so the sending calls never suspend '
-               'and cancellation reaches the handler only in Sleep, in a Recv that has to wait, or in the final Wait',
+ASSUMPTIONS = ['the flow-control windows are open; the transport is writable until the program pauses it (Pause), after '
+               'which every sending call waits for write_ready; cancellation reaches the handler only in Sleep, in a Recv '
+               'that has to wait, in such a paused sending call, or in the final Wait; the environment resumes writing '
+               'once the handler coroutine has ended',
                'the whole request (HEADERS, DATA, END_STREAM) is delivered before the handler task first runs',
                'a valid grpc-timeout is either far away (fires only while the handler waits) or scripted to fall '
                'inside a given Sleep; an API error is caught by the handler and the program goes on (letting it '
@@ -622,7 +626,12 @@ def run(ctx):
                 'pairs, duplicates, timeout and -bin spellings) x END_STREAM timing x 3 programs; (2) ALL handler '
                 'programs over the 7-letter alphabet {R,I,M,T(OK),T(NOT_FOUND),C,S} up to the depth bound (4 quick; thorough 5 '
                 'for UU and SS, 4 for US and SU) x 4 '
-                'cardinalities x {return, raise GRPCError(ABORTED), raise GRPCError(OK), raise Exception, raise BaseException}; (3) short programs x '
+                'cardinalities x {return, raise GRPCError(ABORTED), raise GRPCError(OK), raise Exception, raise BaseException}; '
+                '(2b) ALL programs over the 14-letter alphabet that adds the part-way failing calls I!a I!h M!a M!h T!a T!h '
+                '(a = invalid metadata / refused message, h = raising listener) and P (transport paused) up to depth 2 '
+                '(quick) / 3 (thorough) x {UU,SS} x 8 endings incl. the handler\'s own TimeoutError / StreamTerminatedError / '
+                'ProtocolError x {no deadline, deadline far away}, plus depth 1 x 4 cardinalities x client side open x '
+                '{honour, swallow+own TimeoutError, swallow+BaseException}; (3) short programs x '
                 '9 request bodies (none/partial/complete/excess x END_STREAM) x {no event, client RST, Server.close} x '
                 '{honour, swallow+return, swallow+BaseException, swallow+GRPCError} x {no deadline, deadline}; '
                 '(4) PRNG programs of length 3..14 with events during a chosen Sleep, deadlines falling inside a '
